@@ -304,7 +304,7 @@ Example C01_page_of_beyond_offset_count_fails :
   p < fst (page_start base (fst ex_huge) 1) + snd (page_start base (fst ex_huge) 1) /\
   ptr_segment p = base /\ slice_index_of base p - 1 = 300 /\
   segment_page_of base (fst ex_huge) p = 301 /\ segment_page_of base (fst ex_huge) p <> 1.
-Proof. vm_compute. repeat split; try reflexivity. discriminate. Qed.
+Proof. vm_compute. repeat split; try reflexivity; intro H; discriminate H. Qed.
 
 (* huge alignment: a 100000-byte block aligned to 64 MiB *)
 Example C03_huge_aligned_example :
